@@ -784,14 +784,27 @@ def R12Call.expected : R12Call → Ent
   | .simple ty a => Ent.single (⟨0, ty⟩ :: a)
   | .polyline a vs => ⟨⟨0, "POLYLINE"⟩ :: a, vs.map (fun v => ⟨0, "VERTEX"⟩ :: v), some [⟨0, "SEQEND"⟩]⟩
 
-/-- `IterDXFWriter.write(entity)`: main entity, its sub-entities and SEQEND -/
+/-- `entity.export_dxf(writer)`: main entity, its sub-entities and SEQEND (Polyline / Insert export them themselves) -/
 def Ent.flat (e : Ent) : List Tag :=
-  e.main ++ e.subs.flatten ++ (match e.seqend with | some s => s | none => [])
+  if dxftype e.main = "INSERT" ∧ e.subs.isEmpty then e.main       -- `if self.attribs_follow:` = attribs exist
+  else e.main ++ e.subs.flatten ++ (match e.seqend with | some s => s | none => [])
+
+/-- an INSERT without ATTRIBs has no SEQEND (Insert.export_dxf would not write it back) -/
+def Ent.exportable (e : Ent) : Bool := !(dxftype e.main == "INSERT" && e.subs.isEmpty && e.seqend.isSome)
+
+/-- the second loop of `IterDXFWriter.write` on the unchanged tree: VERTEX + SEQEND of a POLYLINE, ATTRIB + SEQEND of an
+    INSERT with attribs once more -/
+def Ent.again (e : Ent) : List Tag :=
+  if dxftype e.main = "POLYLINE" ∨ (dxftype e.main = "INSERT" ∧ !e.subs.isEmpty) then
+    e.subs.flatten ++ (match e.seqend with | some s => s | none => [])
+  else []
 
 /-- `IterDXF.export(name)` ... `write(e)`* ... `close()`: everything up to the first entity of the ENTITIES section is
-    copied, the entities are written, ENDSEC, then (`withObjects`: version > AC1009) the OBJECTS section is copied -/
-def exportFile (pre : List Section) (written : List Ent) (objects : Option Section) : List Tag :=
-  pre.flatMap renderSec ++ (tSECTION :: ⟨2, "ENTITIES"⟩ :: (written.flatMap Ent.flat ++ [tENDSEC]))
+    copied, the entities are written (`dup`: with the second loop), ENDSEC, then (version > AC1009) the OBJECTS
+    section is copied, EOF -/
+def exportFile (dup : Bool) (pre : List Section) (written : List Ent) (objects : Option Section) : List Tag :=
+  pre.flatMap renderSec
+    ++ (tSECTION :: ⟨2, "ENTITIES"⟩ :: (written.flatMap (fun e => e.flat ++ (if dup then e.again else [])) ++ [tENDSEC]))
     ++ (match objects with | some o => renderSec o | none => []) ++ [tEOF]
 
 end EzdxfVerif.Readers
